@@ -201,6 +201,36 @@ Fault unescape(const char* p, size_t n, std::string& out, bool* bad_surrogate, s
   return kNone;
 }
 
+int fault_kinds(const char* p, size_t n) {
+  bool ctrl = false, esc = false, uni = false, sur = false;
+  for (size_t k = 0; k < n; k++) {
+    unsigned char c = (unsigned char)p[k];
+    if (c < 0x20) ctrl = true;
+    if (c != '\\') continue;
+    if (k + 1 >= n) { esc = true; break; }
+    unsigned char x = (unsigned char)p[k + 1];
+    if (x == 'u') {
+      long v = hex4(p + k + 2, n - (k + 2));
+      if (v < 0) { uni = true; k += 1; continue; }
+      if (v >= 0xd800 && v <= 0xdbff) {
+        long lo = -1;
+        if (k + 7 < n && p[k + 6] == '\\' && p[k + 7] == 'u') lo = hex4(p + k + 8, n - (k + 8));
+        if (lo >= 0xdc00 && lo <= 0xdfff) { k += 11; continue; }
+        sur = true;
+      } else if (v >= 0xdc00 && v <= 0xdfff)
+        sur = true;
+      k += 5;
+    } else {
+      if (!strchr("\"\\/bfnrt", x) || x == 0) {
+        esc = true;
+        if (x < 0x20) ctrl = true;
+      }
+      k += 1;
+    }
+  }
+  return (int)ctrl + (int)esc + (int)uni + (int)sur;
+}
+
 bool number_value(const std::string& num, MV& out) {
   const char* s = num.c_str();
   bool neg = s[0] == '-';
